@@ -3,6 +3,7 @@ import ParryModel.C11.Lemmas
 import ParryModel.C11.Theorems2
 import ParryModel.C11.Theorems3
 import ParryModel.C11.Theorems4
+import ParryModel.C11.Theorems5
 /-!
 # C11 property theorems: TriMesh derived data always match the buffers
 
